@@ -412,7 +412,13 @@ func runC17Settings(k int, rng *Rng) CaseResult {
 		other := cloneCfg(cfg)
 		p := pick(rng, []string{"I", "S", "K", "KS", "N.A", "Up", "Emb.Y", "T"})
 		c := other.Fields[p]
-		switch rng.Intn(3) {
+		sel := rng.Intn(4)
+		if sel == 3 && !c.Unique {
+			sel = 0
+		}
+		switch sel {
+		case 3: // same meaning, other declaration: unique with / without the index flag
+			c.UniqueOnly = !c.UniqueOnly
 		case 0:
 			c.Index = !c.Index
 			if !c.Index {
